@@ -387,7 +387,7 @@ pub fn texts(args: &Args, rng: &mut Rng, tr: &mut Shards) -> usize {
             n += 1;
         }
     }
-    for _ in 0..args.scale(2500, 40000) {
+    for _ in 0..args.scale(1200, 30000) {
         let ty = gen_type(rng, 2);
         let ndocs = 1 + rng.below(3);
         let wild = rng.chance(30);
@@ -446,7 +446,7 @@ fn json_types() -> Vec<DataType> {
         Decimal32(9, 2), Decimal64(18, 3), Decimal128(38, 10), Decimal256(76, 5), Date32, Date64,
         Time32(TimeUnit::Second), Time32(TimeUnit::Millisecond), Time64(TimeUnit::Microsecond), Time64(TimeUnit::Nanosecond),
         Timestamp(TimeUnit::Second, None), Timestamp(TimeUnit::Millisecond, Some("+01:00".into())), Timestamp(TimeUnit::Microsecond, None),
-        Timestamp(TimeUnit::Nanosecond, Some("UTC".into())), Duration(TimeUnit::Millisecond), Utf8, Utf8, Utf8, LargeUtf8, Utf8View,
+        Timestamp(TimeUnit::Nanosecond, Some("+00:00".into())), Duration(TimeUnit::Millisecond), Utf8, Utf8, Utf8, LargeUtf8, Utf8View,
         Binary, LargeBinary, BinaryView, FixedSizeBinary(3), Null,
         List(fld("item", Int64, true)), List(fld("item", Utf8, true)), List(fld("item", Float64, true)), LargeList(fld("item", Boolean, true)),
         FixedSizeList(fld("item", Int32, true), 2), ListView(fld("item", Int16, true)),
@@ -485,7 +485,7 @@ pub fn round_trips(args: &Args, rng: &mut Rng, tr: &mut Shards) -> (usize, usize
     let types = json_types();
     let mut n = 0;
     let mut skipped = 0;
-    for _ in 0..args.scale(1300, 20000) {
+    for _ in 0..args.scale(800, 12000) {
         let ncols = 1 + rng.below(3);
         let nrows = if rng.chance(10) { 0 } else { 1 + rng.below(4) };
         let mut fields = vec![];
